@@ -25,6 +25,8 @@ def q_alphabet(P, T, VK):
     for i in range(P):
         for j in range(i, P):
             ops.append(("sw", i, j))          # i == j: swap with itself
+    ops.append(("mx", 0, T - 1))              # make_quaint whose payload constructor throws (into pool[0] / into the vector)
+    ops.append(("vx", 0))
     ops += [("vg",), ("vc",), ("vo",)]
     for k in range(VK):
         ops.append(("ve", k))
@@ -41,8 +43,10 @@ def q_alphabet(P, T, VK):
 def q_applicable(st, op):
     live, vl = st
     k = op[0]
-    if k == "mk":
+    if k in ("mk", "mx"):
         return op[1] < len(live)
+    if k == "vx":
+        return True
     if k == "mc":
         return op[1] < len(live) and op[2] < len(live) and (not live[op[1]]) and live[op[2]]
     if k in ("ma", "sw"):
@@ -142,7 +146,7 @@ class C18(Check):
     technique = ("Coq proof of ownership invariants over executable models of quaint_ptr.hpp and optional.hpp (counting owners per "
                  "object, induction over arbitrary operation lists; optional by refinement to plain value semantics) + "
                  "extraction-based differential test against the C++ with instrumented payload types under ASan/UBSan/LSan")
-    level_text = ("Twenty-six theorems proved in Coq for ALL operation lists: every object made through make_quaint is destroyed at most "
+    level_text = ("Twenty-seven theorems proved in Coq for ALL operation lists: every object made through make_quaint is destroyed at most "
                   "once and only by the destructor of its creation type, is alive iff exactly one pointer (pool variable or vector "
                   "element) owns it, moved-from and reset pointers are empty, vector reallocation destroys nothing, and after the "
                   "last owner is gone every object has been destroyed exactly once; optional<T> refines plain value semantics "
@@ -169,7 +173,7 @@ class C18(Check):
                   "make the temporaries are not modelled). Leaks: allocator bytes are compared before/after every case and LeakSanitizer confirms any growth.")
     rule = ("quaint_ptr: every applicable operation sequence of depth 4 on a pool of 2 pointers and of depth 3 on a pool of 3 (thorough: "
             "also depth 4 on a pool of 3 and depth 4 on a pool of 2 with 3 types) "
-            "over {make<T>, default-construct, move-construct, move-assign (incl. self), reset, p = nullptr (also on a vector "
+            "over {make<T>, make<T> whose constructor throws (assigned, emplaced, pushed into the vector), default-construct, move-construct, move-assign (incl. self), reset, p = nullptr (also on a vector "
             "element), std::swap (incl. with itself), destroy, "
             "push_back(move), reserve, pop_back, erase in the middle, clear, move out of vector} + one std::vector<quaint_ptr>, then random sequences of length 12-20 (biased to "
             "applicable operations) and fully random ones (inapplicable operations must be skipped identically); optional: every "
